@@ -72,6 +72,9 @@ class Ctx:
         self.pos = 0
         self.solver = z3.Solver()
         self.solver.set('timeout', timeout_ms)
+        self.timeout_ms = timeout_ms
+        self.first_budget_ms = 4000   # incremental attempt before falling back to a fresh solver
+        self.nonlinear = True
         self.pc = []                # list of z3 BoolRef added so far (for reporting / witnesses)
         self.model = None           # last model known to satisfy pc
         self.counter = {}
@@ -81,6 +84,10 @@ class Ctx:
         self.defs = []              # definitional axioms (sqrt etc.)
         self.memo = {}              # per-path memo for stubs (function of structural argument)
         self.refine = []            # defining equations of abstracted operations (SQ(t) == t*t ...)
+        self.abstract_log = False   # harness option: log(x) as a fresh real per distinct argument
+        self.abstract_terms = []    # (kind, variable, argument) of operations abstracted WITHOUT refinement
+        self.purify_div = False     # harness option: quotients as fresh variables with q*b == a
+        self.resolve_masks = False  # harness option: decide mask cells that the path condition already forces
 
     # --- naming -------------------------------------------------------------------
     def name(self, base):
@@ -89,17 +96,53 @@ class Ctx:
         return '%s!%d' % (base, n)
 
     # --- solver -------------------------------------------------------------------
-    def _check(self, *extra):
+    def _solve(self, extra=(), need_model=True):
+        """check pc /\\ extra.  Chain: incremental solver (short budget) -> fresh solver with the default
+        (preprocessing) strategy -> external z3 binary (different version; unsat only).  Returns
+        (z3 result, model-or-None)."""
+        extra = [e for e in extra if e is not True]
         t0 = time.perf_counter()
-        r = self.solver.check(*extra)
-        dt = time.perf_counter() - t0
         self.stats['queries'] += 1
-        self.stats['solver_s'] += dt
+        try:
+            first = min(self.timeout_ms, self.first_budget_ms)
+            self.solver.set('timeout', first)
+            r = self.solver.check(*extra)
+            if r == z3.sat:
+                return r, self.solver.model()
+            if r == z3.unsat:
+                return r, None
+            if not self.nonlinear:
+                # (purely linear contexts never come back unknown in practice; do not retry)
+                pass
+            # fresh, non-incremental
+            self.stats['fallback_fresh'] = self.stats.get('fallback_fresh', 0) + 1
+            s2 = z3.Solver()
+            s2.set('timeout', self.timeout_ms)
+            for c in self.pc:
+                s2.add(c)
+            for e in extra:
+                s2.add(e)
+            r = s2.check()
+            if r == z3.sat:
+                return r, s2.model()
+            if r == z3.unsat:
+                return r, None
+            # external solver (z3 4.8.12 binary): different code base version, used for unsat answers only
+            ext = external_unsat(s2, self.timeout_ms)
+            if ext:
+                self.stats['fallback_external'] = self.stats.get('fallback_external', 0) + 1
+                return z3.unsat, None
+            return z3.unknown, None
+        finally:
+            self.stats['solver_s'] += time.perf_counter() - t0
+
+    def _check(self, *extra):
+        r, m = self._solve(extra)
         if r == z3.unknown:
             self.stats['unknown'] += 1
-            raise Inconclusive('solver unknown: %s' % self.solver.reason_unknown())
+            raise Inconclusive('solver unknown')
         if r == z3.sat:
-            self.model = self.solver.model()
+            self.model = m
         return r == z3.sat
 
     def add(self, c):
@@ -139,22 +182,13 @@ class Ctx:
         """A model of the path condition.  exact=True: also satisfying the defining equations of
         abstracted operations (needed before a model is turned into a concrete input)."""
         if exact and self.refine:
-            self.solver.push()
-            try:
-                for d in self.refine:
-                    self.solver.add(d)
-                t0 = time.perf_counter()
-                r = self.solver.check()
-                self.stats['queries'] += 1
-                self.stats['solver_s'] += time.perf_counter() - t0
-                if r == z3.sat:
-                    return self.solver.model()
-                if r == z3.unsat:
-                    raise Vacuous('path infeasible once abstracted operations are given their exact meaning')
-                self.stats['unknown'] += 1
-                raise Inconclusive('solver unknown on exact model: %s' % self.solver.reason_unknown())
-            finally:
-                self.solver.pop()
+            r, m = self._solve(list(self.refine))
+            if r == z3.sat:
+                return m
+            if r == z3.unsat:
+                raise Vacuous('path infeasible once abstracted operations are given their exact meaning')
+            self.stats['unknown'] += 1
+            raise Inconclusive('solver unknown on exact model')
         if self.model is None:
             if not self._check():
                 raise Vacuous('path condition infeasible')
@@ -208,6 +242,17 @@ class Ctx:
             return False
         raise RuntimeError('path condition infeasible at a branch')
 
+    def forced(self, c):
+        """True / False if the path condition forces the condition, else None"""
+        c = _b(c)
+        if isinstance(c, bool):
+            return c
+        if not self.feasible(z3.Not(c)):
+            return True
+        if not self.feasible(c):
+            return False
+        return None
+
     def assume(self, c):
         """Harness precondition.  Returns False if it makes the path infeasible."""
         if isinstance(c, SBool):
@@ -224,43 +269,56 @@ class Ctx:
             return 'proved', None
         if prop is False:
             return 'refuted', self.get_model()
-        t0 = time.perf_counter()
-        r = self.solver.check(z3.Not(prop))
-        self.stats['queries'] += 1
-        self.stats['solver_s'] += time.perf_counter() - t0
+        r, m = self._solve([z3.Not(prop)])
         if r == z3.unknown:
             # identities that do not need the path condition: try to prove them in an empty context
             s2 = z3.Solver()
             s2.set('timeout', 5000)
-            t0 = time.perf_counter()
-            r2 = s2.check(z3.Not(prop))
-            self.stats['queries'] += 1
-            self.stats['solver_s'] += time.perf_counter() - t0
-            if r2 == z3.unsat:
+            if s2.check(z3.Not(prop)) == z3.unsat:
                 return 'proved', None
+            self.stats['unknown'] += 1
+            return 'unknown', None
         if r == z3.unsat:
             return 'proved', None
-        if r == z3.sat and not self.refine:
-            return 'refuted', self.solver.model()
+        if not self.refine:
+            return 'refuted', m
+        # candidate under the abstraction: re-check with the exact meaning of abstracted operations
+        r, m = self._solve(list(self.refine) + [z3.Not(prop)])
+        if r == z3.unsat:
+            return 'proved', None
         if r == z3.sat:
-            # candidate under the abstraction: re-check with the exact meaning of abstracted operations
-            self.solver.push()
-            try:
-                for d in self.refine:
-                    self.solver.add(d)
-                self.solver.add(z3.Not(prop))
-                t0 = time.perf_counter()
-                r = self.solver.check()
-                self.stats['queries'] += 1
-                self.stats['solver_s'] += time.perf_counter() - t0
-                if r == z3.unsat:
-                    return 'proved', None
-                if r == z3.sat:
-                    return 'refuted', self.solver.model()
-            finally:
-                self.solver.pop()
+            return 'refuted', m
         self.stats['unknown'] += 1
         return 'unknown', None
+
+
+def external_unsat(solver, timeout_ms):
+    """Ask /usr/bin/z3 (4.8.12) whether the assertions of `solver` are unsatisfiable."""
+    import os
+    import subprocess
+    import tempfile
+    exe = '/usr/bin/z3'
+    if not os.path.exists(exe):
+        return False
+    d = '/dev/shm' if os.path.isdir('/dev/shm') else None
+    fd, path = tempfile.mkstemp(suffix='.smt2', dir=d)
+    try:
+        with os.fdopen(fd, 'w') as f:
+            f.write(solver.to_smt2())
+        secs = max(1, int(timeout_ms / 1000))
+        try:
+            out = subprocess.run([exe, '-T:%d' % secs, path], capture_output=True, text=True, timeout=secs + 5).stdout
+        except subprocess.TimeoutExpired:
+            return False
+        if '(error' in out:
+            return False
+        lines = [l.strip() for l in out.splitlines() if l.strip()]
+        return bool(lines) and lines[0] == 'unsat'
+    finally:
+        try:
+            os.unlink(path)
+        except OSError:
+            pass
 
 
 class PathResult:
@@ -509,6 +567,23 @@ def _arith(op, a, b, real):
 class SVal:
     __slots__ = ()
 
+    def __getitem__(self, idx):
+        """numpy-scalar indexing: x[()] / x[...] -> x ;  x[..., None] / x[None] -> array of shape (1,)*k"""
+        if not isinstance(idx, tuple):
+            idx = (idx,)
+        if any(i is not Ellipsis and i is not None for i in idx):
+            raise IndexError('invalid index to scalar variable.')
+        k = sum(1 for i in idx if i is None)
+        if k == 0:
+            return self
+        from .arr import SArr
+        import numpy
+        o = numpy.empty((1,) * k, dtype=object)
+        o.reshape(-1)[0] = self
+        r = o.view(SArr)
+        r.ldtype = self.dtype
+        return r
+
 
 def is_sym(x):
     return isinstance(x, SVal)
@@ -591,6 +666,11 @@ class SBool(SVal):
 
     def __repr__(self):
         return '<SBool>'
+
+    @property
+    def dtype(self):
+        import numpy
+        return numpy.dtype(bool)
 
     def __format__(self, spec):
         return '<SBool>'
@@ -1039,6 +1119,22 @@ def _fsign(a):
     return I(a.pinf, 1, I(a.ninf, -1, _sign(a.v)))
 
 
+def _pure_div(a, b):
+    """a/b for a divisor known to be non-zero on this path.  With ctx.purify_div the quotient is a fresh
+    variable q with q*b == a (helps nlsat considerably); otherwise z3's division."""
+    if _isc(b) or not active() or not getattr(cur(), 'purify_div', False):
+        return _arith('/', a, b, True)
+    ctx = cur()
+    za, zb = _z(a, True), _z(b, True)
+    key = ('div', za.get_id(), zb.get_id())
+    q = ctx.memo.get(key)
+    if q is None:
+        q = z3.Real(ctx.name('quot'))
+        ctx.add(q * zb == za)
+        ctx.memo[key] = q
+    return q
+
+
 def fl_arith(op, a, b, pyscalar=False):
     fa, fb = a.fin, b.fin
     if fa is True and fb is True:
@@ -1047,9 +1143,9 @@ def fl_arith(op, a, b, pyscalar=False):
         # division of finite by finite: zero divisor?
         bz = EQ(b.v, 0)
         if bz is False:
-            return SFloat.mk(K_FIN, _arith('/', a.v, b.v, True))
+            return SFloat.mk(K_FIN, _pure_div(a.v, b.v))
         if bz is not True and active() and not cur().feasible(bz):
-            return SFloat.mk(K_FIN, _arith('/', a.v, b.v, True))
+            return SFloat.mk(K_FIN, _pure_div(a.v, b.v))
         if pyscalar:
             if SBool.mk(bz) if not isinstance(bz, bool) else bz:
                 raise ZeroDivisionError('division by zero')
@@ -1118,6 +1214,9 @@ def fl_sqrt(a):
     ctx.add(ax)
     ctx.defs.append(ax)
     neg = AND(a.fin, LT(a.v, 0))
+    if not isinstance(neg, bool) and getattr(ctx, 'resolve_masks', False):
+        f = ctx.forced(neg)
+        neg = neg if f is None else f
     k = I(OR(a.nan, a.ninf, neg), K_NAN, I(a.pinf, K_PINF, K_FIN))
     return SFloat.mk(k, r)
 
@@ -1147,18 +1246,38 @@ _LOG = z3.Function('LOG', z3.RealSort(), z3.RealSort())
 _EXP = z3.Function('EXP', z3.RealSort(), z3.RealSort())
 
 
+def _log_term(v):
+    """LOG(v): uninterpreted function, or (ctx.abstract_log) one fresh real per syntactically distinct argument,
+    which keeps the query in QF_NRA.  Both over-approximate log, so proofs stay sound."""
+    zv = _z(v, True)
+    if active() and getattr(cur(), 'abstract_log', False):
+        ctx = cur()
+        key = ('log', zv.get_id())
+        t = ctx.memo.get(key)
+        if t is None:
+            t = z3.Real(ctx.name('log'))
+            ctx.memo[key] = t
+            ctx.abstract_terms.append(('log', t, zv))
+        return t
+    return _LOG(zv)
+
+
 def fl_log(a):
     a = as_sfloat(a)
     if a.fin is True and _isc(a.v):
         if a.v > 0:
             if a.v == 1:
                 return 0.0
-            return SFloat(K_FIN, _LOG(_z(Fraction(a.v), True)))
+            return SFloat(K_FIN, _log_term(Fraction(a.v)))
         return -math.inf if a.v == 0 else math.nan
     zero = AND(a.fin, EQ(a.v, 0))
     neg = AND(a.fin, LT(a.v, 0))
+    if active() and getattr(cur(), 'resolve_masks', False):
+        f = cur().forced(AND(a.fin, LT(0, a.v)))
+        if f is True:
+            return SFloat(K_FIN, _log_term(a.v))
     k = I(OR(a.nan, a.ninf, neg), K_NAN, I(a.pinf, K_PINF, I(zero, K_NINF, K_FIN)))
-    return SFloat.mk(k, _LOG(_z(a.v, True)))
+    return SFloat.mk(k, _log_term(a.v))
 
 
 def fl_exp(a):
